@@ -34,6 +34,9 @@ CONTROLS = [
     ("Buggy_PickleKeepsHash", "invariant", "EqIsPyEq"),
     ("Buggy_ClassMemo_dict", "invariant", "DictFindsEqual"),
     ("Buggy_PickleKeepsHash_dict", "invariant", "DictFindsEqual"),
+    # round 3: the generated __eq__ without its "self is other" exit: an object that holds a
+    # value which is not == itself (float NaN) directly in a field is not == itself
+    ("Buggy_NoIdentityPath", "invariant", "EqIsPyEq"),
 ]
 # the quick tier runs one control per Bug switch (the machine-wide TLC slots are scarce)
 THOROUGH_ONLY = {"Buggy_DropField_dict", "Buggy_StaleHash_eq", "Buggy_ClassMemo_dict",
@@ -277,15 +280,21 @@ def run(tier, seed, out):
                  "use of the classes; every trace starts from a pristine interpreter state); every "
                  "catalogue member with its twin x 4 ways of arriving from another interpreter process "
                  "(unpickled; hashed / nested nodes hashed / untouched before pickling there) x 1 "
-                 "operation, 28 representative pairs x the same x 2 operations"
+                 "operation, 28 representative pairs x the same x 2 operations; 11 single objects that "
+                 "hold a float NaN (a value not == itself: directly in a field of built-in / user / "
+                 "legacy classes, in a tuple field, below other nodes) x every history of length 2 over "
+                 "the self alphabet (== / != with ITSELF, hash, dict put / get of itself, copy / "
+                 "deepcopy / pickle copy / mappers and the same on the results)"
                  if tier == "quick" else
                  "every unordered pair inside each catalogue family x every history of length 2, every "
                  "near pair x every history of length 3 over the pair alphabet; 24 representative pairs "
                  "+ 8 triples x every history of length 2 over the full alphabet; 20 class-hierarchy "
                  "tuples x every history of length 3 over hash/==/put/get on every object; cross-"
                  "interpreter arrival (4 ways) of every twin pair x 2 operations, every near pair x 1, "
-                 "28 representative pairs x 2")
-    out.rule = ("TLC enumerates (C01_Gen over the 276-object catalogue in 22 families): " + pairs_txt +
+                 "28 representative pairs x 2; every catalogue member alone x every history of length 2 "
+                 "over the self alphabet (== / != with itself, hash, dict put / get of itself, copies, "
+                 "mappers, the same on the results), the 21 NaN-holding members x length 3")
+    out.rule = ("TLC enumerates (C01_Gen over the 297-object catalogue in 24 families): " + pairs_txt +
                 "; plus seeded -simulate random walks of 8 operations from any family pair/triple. "
                 "A case is one history (New events + operations), replayed on fresh objects; "
                 "non-trivial = at least one operation after construction; distinct by canonical JSON "
@@ -304,14 +313,18 @@ def run(tier, seed, out):
                 clss[e["spec"]["cls"]] = clss.get(e["spec"]["cls"], 0) + 1
     out.extra["events_by_operation"] = ops
     out.extra["objects_by_class"] = clss
-    out.extra["sweeps"] = {s: sum(1 for c in cases if c["sweep"] == s) for s in ("pairs", "near", "deep", "deepq", "hier", "xtwin", "xnear", "xdeep", "sim")}
+    out.extra["sweeps"] = {s: sum(1 for c in cases if c["sweep"] == s) for s in ("pairs", "near", "deep", "deepq", "hier", "xtwin", "xnear", "xdeep", "self", "selfn", "sim")}
     out.assumptions += [
         "CPython semantics of ==/hash on tuples, numbers, str, mappings as transcribed in C01_Values.tla",
         "default interpreter mode (__debug__ true); python -O is out of scope as the statement says",
-        "bounded: catalogue of 276 object specifications in 22 families, histories of the stated lengths",
+        "bounded: catalogue of 297 object specifications in 24 families, histories of the stated lengths",
         "cross-interpreter arrival: only ==/hash/dict behaviour of the unpickled object is judged here, "
         "whether and how faithfully an expression pickles is C17 (a failed pickle is SKIP)",
-        "float NaN constants and values the driver cannot serialise are out of model (SKIP)",
+        "float NaN constants are in the model with the identity of the float object (three-valued "
+        "meaning: the answer of == between two DIFFERENT objects that share a NaN object directly in a "
+        "field, or that may share a nested NaN-holding node, is not fixed by the statement and not judged; "
+        "== of an object with itself is); numpy NaN / infinities and values the driver cannot serialise "
+        "are out of model (SKIP)",
     ]
     kit.log(f"C01: total {time.time() - t0:.1f}s")
 
